@@ -10,6 +10,7 @@ import (
 	"strings"
 
 	"github.com/q191201771/lal/pkg/base"
+	"github.com/q191201771/lal/pkg/gb28181"
 	"github.com/q191201771/lal/pkg/rtprtcp"
 	"github.com/q191201771/lal/pkg/rtsp"
 	"github.com/q191201771/lal/pkg/sdp"
@@ -190,5 +191,26 @@ func init() {
 			out = append(out, tokBytes(p))
 		}
 		return "ok " + strings.Join(out, ",")
+	})
+
+	// c13.ps <maxlist> <pkt,pkt,...>: a fresh gb28181.PsUnpacker, FeedRtpPacket per packet
+	register("c13.ps", func(a []string) string {
+		gb28181.VerifSetMaxUnpackRtpListSize(intTok(a[0]))
+		var out []string
+		u := gb28181.NewPsUnpacker().WithOnAvPacket(func(pkt *base.AvPacket) {
+			out = append(out, fmt.Sprintf("av:%s:%s:%s:%s", tokInt(int64(pkt.PayloadType)), tokInt(pkt.Timestamp), tokInt(pkt.Pts), tokBytes(pkt.Payload)))
+		})
+		if a[1] != "-" {
+			for _, it := range strings.Split(a[1], ",") {
+				mark := len(out)
+				out = append(out, "")
+				if err := u.FeedRtpPacket(bytesTok(it)); err != nil {
+					out[mark] = "e"
+				} else {
+					out[mark] = "k"
+				}
+			}
+		}
+		return "ok " + c13Join(out)
 	})
 }
